@@ -102,6 +102,59 @@ func (f *g2lFn) call(b *binds, e *ast.CallExpr) string {
 		}
 		return f.convert(b, tv.Type, e.Args[0], e)
 	}
+	if id, ok := e.Fun.(*ast.Ident); ok && id.Name == "new" && len(e.Args) == 1 {
+		if fld, ok := f.heapField(f.typeOf(e)); ok {
+			f.needWorld(e)
+			p := f.fresh("p")
+			b.add(fmt.Sprintf("let (%s, hl) := heapAlloc ((world).%s) %s", p, fld, f.zero(f.typeOf(e).(*types.Pointer).Elem(), e)))
+			b.add(fmt.Sprintf("let world := { (world) with %s := hl }", fld))
+			b.noteRebound("world")
+			return p
+		}
+	}
+	if sel, ok := e.Fun.(*ast.SelectorExpr); ok && f.u.ownerCalls[sel.Sel.Name] && len(e.Args) == 0 {
+		// x.Comment(): the pointer to the embedded Comments of x is the owning sum value
+		if sum, ok := f.ownerOf(f.typeOf(e)); ok {
+			rt := f.typeOf(sel.X)
+			if n, ok := rt.(*types.Named); ok && n.Obj().Name() == sum {
+				return f.expr(b, sel.X)
+			}
+			if pt, ok := rt.(*types.Pointer); ok {
+				if n, ok := pt.Elem().(*types.Named); ok {
+					return "(" + sum + "." + n.Obj().Name() + " " + f.expr(b, sel.X) + ")"
+				}
+			}
+			f.bad(e, "%s() on %s", sel.Sel.Name, rt)
+		}
+	}
+	if sel, ok := e.Fun.(*ast.SelectorExpr); ok {
+		// a method of the interface called on a sum value whose variants are pointers: dispatch on the variant
+		if n, ok := f.typeOf(sel.X).(*types.Named); ok && len(f.u.heapTypes) > 0 {
+			if variants, ok := f.u.sumTypes[n.Obj().Name()]; ok {
+				x := f.expr(b, sel.X)
+				args := f.args(b, e)
+				arms := []string{}
+				for _, v := range variants {
+					callee, ok := g2l.fns[f.u.pkgDir+"."+v+"."+sel.Sel.Name]
+					if !ok {
+						f.bad(e, "dispatch of %s: %s.%s is not translated (list it before this function)", sel.Sel.Name, v, sel.Sel.Name)
+					}
+					var ib binds
+					r := f.callFn(&ib, callee, append([]string{"dp"}, args...), e)
+					arm := append(append([]string{}, ib.lines...), fmt.Sprintf("pure (%s, world)", r))
+					arms = append(arms, fmt.Sprintf("  | %s.%s dp => %s", n.Obj().Name(), v, f.paren(arm)))
+				}
+				if f.u.sumNil[n.Obj().Name()] {
+					arms = append(arms, fmt.Sprintf("  | %s.nil => throw Err.panic", n.Obj().Name()))
+				}
+				f.needWorld(e)
+				r := f.fresh("dr")
+				b.add(fmt.Sprintf("let (%s, world) ← (match %s with\n%s : M (%s × %s))", r, x, strings.Join(arms, "\n"), f.leanType(f.typeOf(e), e), f.worldType))
+				b.noteRebound("world")
+				return r
+			}
+		}
+	}
 	if tf, ok := f.u.walkCalls[strings.Join(strings.Fields(show(e.Fun)), "")]; ok {
 		return f.walkCall(b, e, tf)
 	}
@@ -387,6 +440,23 @@ func (f *g2lFn) call(b *binds, e *ast.CallExpr) string {
 	}
 	if pkg == "" {
 		if callee, ok := g2l.fns[f.u.pkgDir+"."+name]; ok {
+			if callee.inoutName != "" && callee.inoutIdx < len(e.Args) {
+				if _, isId := e.Args[callee.inoutIdx].(*ast.Ident); !isId {
+					// reverseComments(x.Comment().Suffix): the updated slice is stored back where the argument came from
+					args := f.args(b, e)
+					tmp := f.fresh("ia")
+					b.add(fmt.Sprintf("let %s := %s", tmp, args[callee.inoutIdx]))
+					args[callee.inoutIdx] = tmp
+					r := f.callFn(b, callee, args, e)
+					lines := []string{}
+					f.assignOne(&lines, e.Args[callee.inoutIdx], tmp, f.typeOf(e.Args[callee.inoutIdx]))
+					for _, l := range lines {
+						b.add(l)
+					}
+					b.noteRebound("world")
+					return r
+				}
+			}
 			return f.callFn(b, callee, f.args(b, e), e)
 		}
 		f.bad(e, "call to %s, which is not in the translated set", name)
@@ -472,9 +542,6 @@ func (f *g2lFn) callFn(b *binds, callee *g2lFn, args []string, at ast.Node) stri
 		if f.worldVar == nil {
 			f.bad(at, "call to the world function %s from a function that does not thread the world", callee.goName)
 		}
-		if callee.inoutName != "" {
-			f.bad(at, "a world function with an in-out parameter (%s)", callee.goName)
-		}
 		var call string
 		if callee == f {
 			call = "(" + callee.leanName + " \x00ABS\x00fuel " + strings.Join(append(args, "world"), " ") + ")"
@@ -489,6 +556,17 @@ func (f *g2lFn) callFn(b *binds, callee *g2lFn, args []string, at ast.Node) stri
 		r := f.fresh("wr")
 		b.add(fmt.Sprintf("let (%s, world) := %s", r, t))
 		b.noteRebound("world")
+		if callee.inoutName != "" {
+			// the callee also returns its in-out parameter: (result, param) inside the world pair
+			target := args[callee.inoutIdx]
+			if !isSimpleTerm(target) {
+				f.bad(at, "in-out argument %s is not a variable", target)
+			}
+			r2 := f.fresh("io")
+			b.add(fmt.Sprintf("let (%s, %s) := %s", r2, target, r))
+			b.noteRebound(target)
+			return r2
+		}
 		return r
 	}
 	if callee.inoutName != "" {
@@ -561,6 +639,12 @@ func (f *g2lFn) varName(o types.Object) string {
 	base := leanIdent(o.Name())
 	for _, tv := range f.u.absTypes {
 		if base == tv {
+			base += "_"
+		}
+	}
+	for _, sn := range f.u.structNames {
+		// a variable named like a struct type of the unit (`token []string` next to `type token struct`) would shadow the type
+		if base == sn {
 			base += "_"
 		}
 	}
@@ -925,6 +1009,21 @@ func (f *g2lFn) assignedOuter(nodes []ast.Node, before token.Pos) []*types.Var {
 		for {
 			switch x := e.(type) {
 			case *ast.SelectorExpr:
+				if len(f.u.heapTypes) > 0 {
+					if _, isPtr := f.typeOf(x.X).(*types.Pointer); isPtr {
+						_, h := f.heapField(f.typeOf(x.X))
+						_, _, in := f.interiorOf(f.typeOf(x.X))
+						_, ow := f.ownerOf(f.typeOf(x.X))
+						if h || in || ow {
+							// a store through a pointer changes the heap, not the pointer variable
+							if f.worldVar != nil && f.worldVar.Pos() < before && !seen[f.worldVar] {
+								seen[f.worldVar] = true
+								out = append(out, f.worldVar)
+							}
+							return
+						}
+					}
+				}
 				e = x.X
 				continue
 			case *ast.IndexExpr:
@@ -981,7 +1080,28 @@ func (f *g2lFn) assignedOuter(nodes []ast.Node, before token.Pos) []*types.Var {
 				}
 			case *ast.IncDecStmt:
 				add(n.X)
+			case *ast.UnaryExpr:
+				if n.Op == token.AND && len(f.u.heapTypes) > 0 {
+					if _, ok := f.heapField(f.typeOf(n)); ok && f.worldVar != nil && f.worldVar.Pos() < before && !seen[f.worldVar] {
+						seen[f.worldVar] = true
+						out = append(out, f.worldVar)
+					}
+				}
 			case *ast.CallExpr:
+				if len(f.u.heapTypes) > 0 && f.worldVar != nil && f.worldVar.Pos() < before && !seen[f.worldVar] {
+					if id, ok := n.Fun.(*ast.Ident); ok && id.Name == "new" {
+						seen[f.worldVar] = true
+						out = append(out, f.worldVar)
+					}
+					if sel, ok := n.Fun.(*ast.SelectorExpr); ok {
+						if nt, ok := f.typeOf(sel.X).(*types.Named); ok {
+							if _, ok := f.u.sumTypes[nt.Obj().Name()]; ok && !f.u.ownerCalls[sel.Sel.Name] && !seen[f.worldVar] {
+								seen[f.worldVar] = true
+								out = append(out, f.worldVar)
+							}
+						}
+					}
+				}
 				if _, ok := f.u.walkCalls[strings.Join(strings.Fields(show(n.Fun)), "")]; ok && len(n.Args) == 2 {
 					if lit, ok := n.Args[1].(*ast.FuncLit); ok {
 						for _, v := range f.assignedOuter([]ast.Node{lit.Body}, lit.Pos()) {
@@ -1046,6 +1166,12 @@ func (f *g2lFn) assignedOuter(nodes []ast.Node, before token.Pos) []*types.Var {
 				} else if src0 == "binary.BigEndian.PutUint32" && len(n.Args) == 2 {
 					if se, ok := n.Args[0].(*ast.SliceExpr); ok {
 						add(se.X)
+					}
+				}
+				// a call to a function with an in-out parameter assigns to the argument (a variable, or a place in the heap)
+				if id, ok := n.Fun.(*ast.Ident); ok {
+					if callee, ok := g2l.fns[f.u.pkgDir+"."+id.Name]; ok && callee.inoutName != "" && callee.inoutIdx < len(n.Args) {
+						add(n.Args[callee.inoutIdx])
 					}
 				}
 				// copy(dst[...], src) assigns to dst
@@ -1218,6 +1344,53 @@ func (f *g2lFn) assignOne(lines *[]string, lhs ast.Expr, term string, lt types.T
 		*lines = append(*lines, fmt.Sprintf("let %s := %s", f.name(l), term))
 	case *ast.SelectorExpr:
 		// x.a.b.c = v  ==>  let x := { x with a := { x.a with b := { x.a.b with c := v } } }
+		if len(f.u.heapTypes) > 0 {
+			// x.a.b = v where some prefix is a pointer to a heap object: read the object, update the field path, write it back
+			hchain := []string{}
+			hcur := ast.Expr(l)
+			for {
+				se, ok := hcur.(*ast.SelectorExpr)
+				if !ok {
+					break
+				}
+				// the full field path of this selection (promoted fields included)
+				seg := []string{}
+				if sl, ok := f.p.info.Selections[se]; ok && sl.Kind() == types.FieldVal {
+					t := f.typeOf(se.X)
+					for _, ix := range sl.Index() {
+						if pt, ok := t.(*types.Pointer); ok {
+							t = pt.Elem()
+						}
+						st, ok := t.Underlying().(*types.Struct)
+						if !ok {
+							break
+						}
+						seg = append(seg, leanIdent(st.Field(ix).Name()))
+						t = st.Field(ix).Type()
+					}
+				} else {
+					seg = []string{leanIdent(se.Sel.Name)}
+				}
+				hchain = append(seg, hchain...)
+				hcur = se.X
+				if _, isPtr := f.typeOf(hcur).(*types.Pointer); isPtr {
+					chainCopy := append([]string{}, hchain...)
+					if f.storeHeap(lines, hcur, func(cur string) string {
+						val := term
+						for i := len(chainCopy) - 1; i >= 0; i-- {
+							path := "(" + cur + ")"
+							for _, c := range chainCopy[:i] {
+								path = "(" + path + "." + c + ")"
+							}
+							val = fmt.Sprintf("{ %s with %s := %s }", path, chainCopy[i], val)
+						}
+						return val
+					}) {
+						return
+					}
+				}
+			}
+		}
 		chain := []string{leanIdent(l.Sel.Name)}
 		cur := l.X
 		worldBase := false
@@ -1860,6 +2033,12 @@ func (f *g2lFn) typeSwitch(s *ast.TypeSwitchStmt, rest kont) []string {
 			continue
 		}
 		for _, te := range cc.List {
+			if id, ok := te.(*ast.Ident); ok && id.Name == "nil" && f.u.sumNil[sn.Obj().Name()] {
+				body := f.stmts(cc.Body, k)
+				arms = append(arms, fmt.Sprintf("| %s.nil => %s", sn.Obj().Name(), f.paren(body)))
+				covered["\x00nil"] = true
+				continue
+			}
 			t := f.p.info.Types[te].Type
 			if pt, ok := t.(*types.Pointer); ok {
 				t = pt.Elem()
@@ -1886,6 +2065,9 @@ func (f *g2lFn) typeSwitch(s *ast.TypeSwitchStmt, rest kont) []string {
 		if !covered[v] {
 			missing = true
 		}
+	}
+	if f.u.sumNil[sn.Obj().Name()] && !covered["\x00nil"] {
+		missing = true
 	}
 	if missing {
 		if def == nil {
